@@ -82,7 +82,9 @@ def _is_connected_cached(cls, x, y):
                 x, y = y, x
             if result is not False:
                 break
+            # Second pass compares (y, x): the roles of Max and Min swap with them
             x, y = y, x
+            t, f = f, t
     if len(_is_connected_cache) >= 200_000:
         _is_connected_cache.clear()
     _is_connected_cache[key] = result
